@@ -331,7 +331,16 @@ func randHistoryOp(r *rng, w *world) string {
 					axes = append(axes, j)
 				}
 			}
-			return fmt.Sprintf("reduce:%s:%d:%s", []string{"sum", "max"}[r.intn(2)], t, fints(axes))
+			// the caller's axes in any order (the library must not reorder them)
+			if len(axes) > 1 && r.intn(2) == 0 {
+				p := r.perm(len(axes))
+				q := make([]int, len(axes))
+				for i, k := range p {
+					q[i] = axes[k]
+				}
+				axes = q
+			}
+			return fmt.Sprintf("reduce:%s:%d:%s", []string{"sum", "max", "min"}[r.intn(3)], t, fints(axes))
 		}
 	case 17:
 		c := sameShape(t)
@@ -412,6 +421,30 @@ func genHistory(r *rng, length int) string {
 	return strings.Join(ops, ";")
 }
 
+// intPoolMotifs: operations that borrow and return int lists (axes, shapes, strides) on one tensor,
+// a NEW tensor built while such a list may sit in the pool (or is still referenced by the first
+// tensor), the closing operation on the first tensor, then reads of the new tensor at every
+// corner: a list that is returned twice, or kept after it was returned, ends up as the new tensor's
+// shape or strides and is zeroed or overwritten under it.  Shared by C01, C03, C13 and C19.
+func intPoolMotifs(emit func(string)) {
+	firsts := []string{"rollaxis:0:2:0:0", "rollaxis:0:2:0:1", "rollaxis:0:0:2:0", "T:0:1,2,0", "T:0:_", "T:0:1,2,0;UT:0", "T:0:2,0,1;transpose:0",
+		"slice:0:1.2.0;ret:1", "reshape:0:6,4;reshape:0:2,3,4", "reduce:sum:0:2,0", "safeT:0:1,2,0;ret:1", "apitranspose:0:2,0,1;ret:1", "T:0:1,2,0;T:0:1,2,0"}
+	closes := []string{"UT:0", "ret:0", "T:0:_", "transpose:0", "UT:0;UT:0", "reshape:0:24", "T:0:2,1,0;UT:0"}
+	for _, f := range firsts {
+		nt := 1 + strings.Count(f, "slice") + strings.Count(f, "safeT") + strings.Count(f, "apitranspose") + strings.Count(f, "reduce")
+		if strings.HasSuffix(f, ":1") && strings.HasPrefix(f, "rollaxis") {
+			nt++ // the safe RollAxis returns a new tensor
+		}
+		for _, c := range closes {
+			b := nt
+			reads := fmt.Sprintf("at:%d:0,0,0;at:%d:1,2,3;at:%d:1,0,2;slice:%d:1.2.0/_/1.3.1;T:%d:2,0,1;at:%d:3,1,2", b, b, b, b, b, b)
+			emit(fmt.Sprintf("prog f64 new:rm:2,3,4:0;%s;new:rm:2,3,4:30;%s;%s", f, c, reads))
+			emit(fmt.Sprintf("prog f64@alt new:rm:2,3,4:0;%s;new:rm:2,3,4:30;%s;%s", f, c, reads))
+			emit(fmt.Sprintf("prog i new:rm:2,3,4:0;%s;new:cm:2,3,4:30;new:rm:4,3:60;%s;at:%d:1,2,3;at:%d:0,1,0;at:%d:3,2;at:%d:0,1", f, c, b, b, b+1, b+1))
+		}
+	}
+}
+
 // recycleMotifs: see genC19 (also part of C04: a recycled struct must not carry a stale transpose
 // into a new view)
 func recycleMotifs(emit func(string)) {
@@ -489,6 +522,23 @@ func genC19(tier string, r *rng, emit func(string)) {
 		emit(fmt.Sprintf("prog f64 %s;%s:incr.3;new:rm:2,2:9;clone:0", pre, op))
 	}
 	recycleMotifs(emit)
+	intPoolMotifs(emit)
+	// caller-owned int lists in every order (unsorted, reversed, repeated use of one tensor): axes of
+	// reductions through both spellings, transposition axes, repeat counts, reshape dimensions,
+	// contraction axes - each followed by allocations that would recycle a pooled list
+	for _, dt := range []string{"f64", "f64@alt"} {
+		for _, red := range []string{"sum", "max", "min"} {
+			for _, ax := range []string{"2,0", "1,0", "2,1,0", "0,2,1", "2,1", "1,2,0"} {
+				emit(fmt.Sprintf("prog %s new:rm:2,3,4:1;reduce:%s:0:%s;new:rm:3:0;new:rm:2,2:0", dt, red, ax))
+				emit(fmt.Sprintf("prog %s new:rm:2,3,4:1;T:0:1,2,0;reduce:%s:0:%s;reduce:%s:0:%s", dt, red, ax, red, ax))
+			}
+		}
+		for _, c := range []string{"new:rm:2,3,4:1;new:rm:4,3,2:2;tmul:0:1:2,1:0,1;new:rm:2:0;new:rm:2,2:0",
+			"new:rm:2,3,4:1;new:rm:3,4,2:2;tmul:0:1:2,1:1,0;new:rm:2:0", "new:rm:2,3,4:1;repeat:0:1:2,1,3;new:rm:3:0",
+			"new:rm:2,3,4:1;reshape:0:4,3,2;new:rm:3:0;reshape:0:24;new:rm:1:0"} {
+			emit(fmt.Sprintf("prog %s %s", dt, c))
+		}
+	}
 	// a destination of another shape (same size) is reshaped; the operands' own shape and strides
 	// lists stay theirs, also after later allocations
 	for _, op := range []string{"bin:add:0:1:reuse.2", "bin:mul:0:1:incr.2", "bins:add:0:3:left:reuse.2", "un:neg:0:reuse.2", "cmp:lt:0:1:same:reuse.2"} {
